@@ -406,3 +406,94 @@ def c07_sequence(code1, mode1, pl1, cnt1, code2, mode2, pl2, cnt2):
     o.append('  VP_REACH("c07 sequence end");')
     o.append('}')
     return '\n'.join(o) + '\n', M
+
+
+
+def c08_big(code, mode, plen, count):
+    """lean decode query for large values: reference-encoded message (exact extent), one decode into an
+    exact-extent destination, no length-query phase and no library encode (those are covered at small sizes)"""
+    name, size, kind = W.VSS_TYPES[code]
+    member, etype, stype = CNAME[name]
+    dlen = size * count
+    pl = (2 + plen) if mode == W.VSS_ADDR_INTEROP else 4
+    M = H + pl + 2 + dlen
+    o = [PRELUDE]
+    o.append('typedef struct { uint8_t hdr[%d]; uint8_t path[%d]; uint32_t sid; uint8_t src[%d]; uint16_t junk; } vp_in_t;' % (H, max(plen, 1), max(dlen, 8)))
+    o.append('void harness(void) {')
+    o.append('  VP_INPUT(vp_in_t, in);')
+    o.append('  uint8_t ref[%d]; memcpy(ref, in.hdr, %d);' % (M, H))
+    o += _set_header('ref', mode, '0x%02x' % code)
+    o += _ref_path(mode, plen, '%du' % plen, concrete=plen)
+    o += _ref_value(code, dlen, '%du' % dlen, conc=dlen)
+    o.append('  uint8_t *obj = vp_pdu_from(ref, %d); Avtp_Vss_t *pdu = (Avtp_Vss_t *)obj;' % M)
+    o.append('  %s dv; %s *oslot = &dv; dv.data_length = in.junk; uint8_t *dest = vp_obj(%d); dv.data = (void *)dest;' % (stype, stype, dlen))
+    o.append('  Avtp_Vss_GetVssData(pdu, (VssData_t *)&oslot);')
+    o.append('  VP_ASSERT(dv.data_length == %d, "C08 %s decode of a large value reports the full value length in bytes");' % (dlen, name))
+    o.append('  VP_ASSERT(vp_bytes_eq(dest, in.src, %d), "C08 %s decode of a large value returns every element bit for bit");' % (dlen, name))
+    o.append('  VP_REACH("c08 big end");')
+    o.append('}')
+    return '\n'.join(o) + '\n', M
+
+
+
+def c08_sequence(code, modes, plens, count):
+    """receive-buffer re-use: several well-formed messages (same header quadlet, different paths) are placed
+    one after the other at the SAME address and decoded; every decode must return that message's own
+    path size, path and value (decoding depends on the current bytes only)"""
+    name, size, kind = W.VSS_TYPES[code]
+    member, etype, stype = CNAME[name]
+    dlen = size * count if kind != 'scalar' else size
+    pls = [(2 + p) if m == W.VSS_ADDR_INTEROP else 4 for m, p in zip(modes, plens)]
+    vl = size if kind == 'scalar' else 2 + dlen
+    M = H + max(pls) + vl
+    n = len(plens)
+    o = [PRELUDE]
+    o.append('typedef struct { uint8_t hdr[%d]; uint8_t path[%d][%d]; uint32_t sid[%d]; uint8_t src[%d][%d]; uint8_t tail[%d]; } vp_in_t;'
+             % (H, n, max(max(plens), 1), n, n, max(dlen, 8), M))
+    o.append('void harness(void) {')
+    o.append('  VP_INPUT(vp_in_t, in);')
+    o.append('  uint8_t *obj = vp_pdu_from(in.tail, %d); Avtp_Vss_t *pdu = (Avtp_Vss_t *)obj;' % M)
+    for i, (mode, plen) in enumerate(zip(modes, plens)):
+        o.append('  { /* message %d */' % (i + 1))
+        o.append('    uint8_t ref[%d]; memcpy(ref, obj, %d); memcpy(ref, in.hdr, %d);' % (M, M, H))
+        o += ['  ' + x for x in _set_header('ref', mode, '0x%02x' % code)]
+        if mode == W.VSS_ADDR_INTEROP:
+            o.append('    ref[%d] = %d; ref[%d] = %d;' % (H, plen >> 8, H + 1, plen & 255))
+            if plen:
+                o.append('    memcpy(ref + %d, in.path[%d], %d);' % (H + 2, i, plen))
+            o.append('    unsigned pl = %du;' % (2 + plen))
+        else:
+            o.append('    ref_be(ref + %d, in.sid[%d], 4); unsigned pl = 4u;' % (H, i))
+        o.append('    unsigned o_ = %du + pl;' % H)
+        if kind == 'scalar':
+            o.append('    ref_be(ref + o_, host_elem(in.src[%d], 0, %d), %d);' % (i, size, size))
+        else:
+            o.append('    ref[o_] = %d; ref[o_ + 1] = %d;' % (dlen >> 8, dlen & 255))
+            if kind == 'bytes':
+                if dlen:
+                    o.append('    memcpy(ref + o_ + 2, in.src[%d], %d);' % (i, dlen))
+            else:
+                for e in range(dlen // size):
+                    o.append('    ref_be(ref + o_ + 2 + %d, host_elem(in.src[%d], %d, %d), %d);' % (e * size, i, e, size, size))
+        o.append('    memcpy(obj, ref, %d);      /* the next datagram arrives in the same receive buffer */' % M)
+        o.append('    VP_ASSERT(Avtp_Vss_CalcVssPathLength(pdu) == pl, "C08 message %d in a re-used buffer: reported on-wire path size is this message\'s");' % (i + 1))
+        o.append('    VssPath_t pout; memset(&pout, 0, sizeof pout);')
+        if mode == W.VSS_ADDR_INTEROP:
+            o.append('    uint8_t *pdst = vp_obj(%d); pout.vss_interop_path.path = (char *)pdst; Avtp_Vss_GetVssPath(pdu, &pout);' % max(plen, 1))
+            o.append('    VP_ASSERT(pout.vss_interop_path.path_length == %d%s, "C08 message %d in a re-used buffer: decoded path equals this message\'s");'
+                     % (plen, (' && vp_bytes_eq(pdst, in.path[%d], %d)' % (i, plen)) if plen else '', i + 1))
+        else:
+            o.append('    Avtp_Vss_GetVssPath(pdu, &pout);')
+            o.append('    VP_ASSERT(pout.vss_static_id_path == in.sid[%d], "C08 message %d in a re-used buffer: decoded static id equals this message\'s");' % (i, i + 1))
+        if kind == 'scalar':
+            o.append('    VssData_t out; memset(&out, 0, sizeof out); Avtp_Vss_GetVssData(pdu, &out);')
+            o.append('    VP_ASSERT(vp_bytes_eq((const uint8_t *)&out.%s, in.src[%d], %d), "C08 message %d in a re-used buffer: decoded value equals this message\'s");' % (member, i, size, i + 1))
+        else:
+            o.append('    %s dv; %s *oslot = &dv; dv.data_length = 0; uint8_t *dest = vp_obj(%d); dv.data = (void *)dest;' % (stype, stype, max(dlen, 1)))
+            o.append('    Avtp_Vss_GetVssData(pdu, (VssData_t *)&oslot);')
+            o.append('    VP_ASSERT(dv.data_length == %d%s, "C08 message %d in a re-used buffer: decoded value equals this message\'s");'
+                     % (dlen, (' && vp_bytes_eq(dest, in.src[%d], %d)' % (i, dlen)) if dlen else '', i + 1))
+        o.append('  }')
+    o.append('  VP_REACH("c08 sequence end");')
+    o.append('}')
+    return '\n'.join(o) + '\n', M
